@@ -886,6 +886,15 @@ func (in *Interp) initPackage(p *ssa.Package) {
 	}
 	in.inited[p] = true
 	f := p.Func("init")
+	if f != nil && f.Blocks == nil {
+		// bodies are built lazily per package (see call); a package whose first use is a global read
+		// (e.g. io/fs.ErrNotExist) has not been built yet
+		buildMu.Lock()
+		if f.Blocks == nil {
+			p.Build()
+		}
+		buildMu.Unlock()
+	}
 	if f == nil || f.Blocks == nil {
 		return
 	}
@@ -1378,6 +1387,31 @@ func (in *Interp) strIndex(s Str, idx Value) Value {
 			r = Ite(Eq(t64, C(64, uint64(i))), s.At(i), r)
 		}
 		return r
+	}
+	if cs, ok := s.Conc(); ok && !t.isC && len(cs) > 64 && len(cs) <= 256 {
+		// concrete lookup table (e.g. encoding/hex.reverseHexTable): ite chain over the entries that differ
+		// from the most frequent byte instead of forking once per feasible index
+		t64 := Ext(t, 64, true)
+		if !in.decide(Bin("bvult", t64, C(64, uint64(len(cs))))) {
+			in.goPanicStr("runtime error: index out of range (string)")
+		}
+		var freq [256]int
+		def := 0
+		for i := 0; i < len(cs); i++ {
+			freq[cs[i]]++
+			if freq[cs[i]] > freq[def] {
+				def = int(cs[i])
+			}
+		}
+		if len(cs)-freq[def] <= 64 {
+			r := C(8, uint64(def))
+			for i := len(cs) - 1; i >= 0; i-- {
+				if int(cs[i]) != def {
+					r = Ite(Eq(t64, C(64, uint64(i))), C(8, uint64(cs[i])), r)
+				}
+			}
+			return r
+		}
 	}
 	i := in.boundedIndex(idx, s.Len())
 	return s.At(i)
